@@ -36,54 +36,46 @@ fn run_convert(src: &[u8], d: u8) -> (Result<(), ValueConversionError>, usize, B
 
 /// `v2` is a complete well-formed encoding (either epoch or mixed) nested `levels` deep and `v1`
 /// is its legacy-epoch reference encoding, built by the harness from the same payload.
-pub(crate) fn check_convert(v2: &[u8], v1: &[u8], levels: u8, d: u8) {
-    let fits = d as u32 + levels as u32 <= 32;
-    let (r, c, out) = run_convert(v2, d);
-    if fits {
-        assert!(r.is_ok() && c == v2.len(), "conversion accepts the well-formed value and consumes all of it");
-        assert!(same_bytes(&out, v1), "converted bytes differ from the legacy encoding of the same value");
-    } else {
-        assert!(
-            r == Err(ValueConversionError::Deserialize(DeserializeError::TooDeeplyNested)),
-            "nesting beyond 32 is rejected with the nesting error"
-        );
+pub(crate) fn check_convert(v2: &[u8], v1: &[u8], levels: u8) {
+    // public entry point, top level
+    let slice = SerializedValueSlice::new(v2);
+    match convert(slice, None, V14) {
+        Ok(Cow::Owned(o)) => assert!(same_bytes(&o, v1), "converted bytes differ from the legacy encoding of the same value"),
+        Ok(Cow::Borrowed(_)) => panic!("down-conversion must re-encode"),
+        Err(_) => panic!("conversion of a well-formed value failed"),
     }
     // converting the legacy encoding again changes nothing (idempotence)
-    let (r1, c1, out1) = run_convert(v1, d);
-    if fits {
-        assert!(r1.is_ok() && c1 == v1.len() && same_bytes(&out1, v1), "convert(convert(x)) == convert(x)");
+    match convert(SerializedValueSlice::new(v1), None, V14) {
+        Ok(Cow::Owned(o)) => assert!(same_bytes(&o, v1), "convert(convert(x)) == convert(x)"),
+        _ => panic!("conversion of the legacy encoding failed"),
     }
-    if d == 0 {
-        // public entry point
-        let slice = SerializedValueSlice::new(v2);
-        match convert(slice, None, V14) {
-            Ok(Cow::Owned(o)) => assert!(fits && same_bytes(&o, v1)),
-            Ok(Cow::Borrowed(_)) => panic!("down-conversion must re-encode"),
-            Err(_) => assert!(!fits),
-        }
-        match convert(slice, None, V20) {
-            Ok(Cow::Borrowed(b)) => assert!(b.as_ptr() == v2.as_ptr() && b.len() == v2.len(), "same epoch: unchanged"),
-            _ => panic!("same-epoch conversion must borrow"),
-        }
-        match convert(slice, Some(V14), V19) {
-            Ok(Cow::Borrowed(b)) => assert!(b.as_ptr() == v2.as_ptr() && b.len() == v2.len()),
-            _ => panic!("same-epoch conversion must borrow"),
-        }
-        match convert(slice, Some(V14), V20) {
-            Ok(Cow::Borrowed(b)) => assert!(b.as_ptr() == v2.as_ptr() && b.len() == v2.len(), "to a newer epoch: unchanged"),
-            _ => panic!("up-conversion must borrow"),
-        }
+    // same or newer epoch: the input is returned unchanged, without being walked
+    match convert(slice, None, V20) {
+        Ok(Cow::Borrowed(b)) => assert!(b.as_ptr() == v2.as_ptr() && b.len() == v2.len(), "same epoch: unchanged"),
+        _ => panic!("same-epoch conversion must borrow"),
     }
+    match convert(slice, Some(V14), V19) {
+        Ok(Cow::Borrowed(b)) => assert!(b.as_ptr() == v2.as_ptr() && b.len() == v2.len()),
+        _ => panic!("same-epoch conversion must borrow"),
+    }
+    match convert(slice, Some(V14), V20) {
+        Ok(Cow::Borrowed(b)) => assert!(b.as_ptr() == v2.as_ptr() && b.len() == v2.len(), "to a newer epoch: unchanged"),
+        _ => panic!("up-conversion must borrow"),
+    }
+    // nesting limit through the private walker (what a parent at depth d does in convert_next)
+    let (r, c, out) = run_convert(v2, 32 - levels);
+    assert!(r.is_ok() && c == v2.len() && same_bytes(&out, v1), "a value nested exactly 32 deep converts");
+    let (r, _, _) = run_convert(v2, 33 - levels);
+    assert!(
+        r == Err(ValueConversionError::Deserialize(DeserializeError::TooDeeplyNested)),
+        "nesting beyond 32 is rejected with the nesting error"
+    );
 }
 
 /// A truncated encoding is rejected by the converter as well, without panicking.
 pub(crate) fn check_convert_prefix_rejected(enc: &[u8], l: usize) {
     let (r, _, _) = run_convert(&enc[..l], 0);
     assert!(r.is_err(), "conversion of a truncated value must fail");
-    let slice = SerializedValueSlice::new(&enc[..l]);
-    if l > 0 {
-        assert!(convert(slice, None, V14).is_err());
-    }
 }
 
 // ---------------------------------------------------------------------------------------------
@@ -140,6 +132,9 @@ mod epoch {
             }
         }
     }
+
+    #[cfg(verif_replay)]
+    include!("/verif/.cache/replay/convert_value__verif__epoch.rs");
 }
 
 // ---------------------------------------------------------------------------------------------
@@ -195,8 +190,11 @@ mod leaf {
                     i += 1;
                 }
                 arr[0] = $kind as u8;
-                let d = any_depth();
-                $( check_leaf_convert($kind, &arr[..$l], d); )*
+                        $(
+                    check_leaf_convert($kind, &arr[..$l], 0);
+                    check_leaf_convert($kind, &arr[..$l], 31);
+                    check_leaf_convert($kind, &arr[..$l], 32);
+                )*
             }
         };
     }
@@ -224,20 +222,20 @@ mod leaf {
     #[kani::unwind(8)]
     fn q_c13_leaf_string() {
         let c: [u8; 2] = kani::any();
-        let d = any_depth();
         let enc = [ValueKind::String as u8, 2, c[0], c[1]];
-        check_convert(&enc, &enc, 1, d);
+        check_convert(&enc, &enc, 1);
         check_convert_prefix_rejected(&enc, 3);
         check_convert_prefix_rejected(&enc, 1);
         let nc = [ValueKind::String as u8, 252, 2, c[0], c[1]];
-        check_convert(&nc, &enc, 1, d);
+        check_convert(&nc, &enc, 1);
         // an invalid kind byte is an error, not a panic
-        let k: u8 = kani::any();
-        kani::assume(k > 65);
-        let bad = [k, c[0]];
+        let bad = [66u8, c[0]]; // literal invalid kind (a symbolic one is explored through all arms)
         let (r, _, _) = run_convert(&bad, 0);
         assert!(r == Err(ValueConversionError::Deserialize(DeserializeError::InvalidSerialization)));
     }
+
+    #[cfg(verif_replay)]
+    include!("/verif/.cache/replay/convert_value__verif__leaf.rs");
 }
 
 // ---------------------------------------------------------------------------------------------
@@ -259,24 +257,22 @@ mod shapes {
     #[kani::unwind(10)]
     fn q_c13_shape_some_enum() {
         let x: u8 = kani::any();
-        let id: u8 = kani::any();
-        kani::assume(id <= 251);
-        let d = any_depth();
+        let id: u8 = 9; // literal: a symbolic first varint byte makes later positions symbolic
         let some = [SOME, U8, x];
-        check_convert(&some, &some, 2, d);
+        check_convert(&some, &some, 2);
         check_convert_prefix_rejected(&some, 1);
         check_convert_prefix_rejected(&some, 2);
         let en = [ENUM, id, U8, x];
-        check_convert(&en, &en, 2, d);
+        check_convert(&en, &en, 2);
         check_convert_prefix_rejected(&en, 2);
         check_convert_prefix_rejected(&en, 3);
         // an enum around a new-epoch container
         let en2 = [ENUM, id, VEC2, SOME, U8, x, NONE];
         let en1 = [ENUM, id, VEC1, 1, U8, x];
-        check_convert(&en2, &en1, 3, d);
+        check_convert(&en2, &en1, 3);
         let so2 = [SOME, VEC2, NONE];
         let so1 = [SOME, VEC1, 0];
-        check_convert(&so2, &so1, 2, d);
+        check_convert(&so2, &so1, 2);
     }
 
     #[kani::proof]
@@ -284,10 +280,9 @@ mod shapes {
     fn q_c13_shape_vec() {
         let x: u8 = kani::any();
         let y: u8 = kani::any();
-        let d = any_depth();
         let v2 = [VEC2, SOME, U8, x, SOME, U8, y, NONE];
         let v1 = [VEC1, 2, U8, x, U8, y];
-        check_convert(&v2, &v1, 2, d);
+        check_convert(&v2, &v1, 2);
         let mut l = 0;
         while l < 8 {
             check_convert_prefix_rejected(&v2, l);
@@ -297,13 +292,13 @@ mod shapes {
         check_convert_prefix_rejected(&v1, 1);
         let e2 = [VEC2, NONE];
         let e1 = [VEC1, 0];
-        check_convert(&e2, &e1, 1, d);
+        check_convert(&e2, &e1, 1);
         // nested, and new inside old
         let n2 = [VEC2, SOME, VEC2, SOME, U8, x, NONE, NONE];
         let n1 = [VEC1, 1, VEC1, 1, U8, x];
-        check_convert(&n2, &n1, 3, d);
+        check_convert(&n2, &n1, 3);
         let m2 = [VEC1, 1, VEC2, SOME, U8, x, NONE];
-        check_convert(&m2, &n1, 3, d);
+        check_convert(&m2, &n1, 3);
         // bad marker
         let bad: u8 = kani::any();
         kani::assume(bad != SOME && bad != NONE && bad <= 65);
@@ -318,10 +313,9 @@ mod shapes {
         let x: u8 = kani::any();
         let y: u8 = kani::any();
         let z: u8 = kani::any();
-        let d = any_depth();
         let b2 = [BYTES2, 2, x, y, 1, z, 0];
         let b1 = [BYTES1, 3, x, y, z];
-        check_convert(&b2, &b1, 1, d);
+        check_convert(&b2, &b1, 1);
         let mut l = 0;
         while l < 7 {
             check_convert_prefix_rejected(&b2, l);
@@ -330,21 +324,19 @@ mod shapes {
         check_convert_prefix_rejected(&b1, 4);
         let e2 = [BYTES2, 0];
         let e1 = [BYTES1, 0];
-        check_convert(&e2, &e1, 1, d);
+        check_convert(&e2, &e1, 1);
     }
 
     #[kani::proof]
     #[kani::unwind(10)]
     fn q_c13_shape_struct() {
-        let i1: u8 = kani::any();
-        let i2: u8 = kani::any();
-        kani::assume(i1 <= 251 && i2 <= 251);
+        let i1: u8 = 3;
+        let i2: u8 = 250;
         let x: u8 = kani::any();
         let y: u8 = kani::any();
-        let d = any_depth();
         let s2 = [STRUCT2, SOME, i1, U8, x, SOME, i2, U8, y, NONE];
         let s1 = [STRUCT1, 2, i1, U8, x, i2, U8, y];
-        check_convert(&s2, &s1, 2, d);
+        check_convert(&s2, &s1, 2);
         let mut l = 0;
         while l < 10 {
             check_convert_prefix_rejected(&s2, l);
@@ -354,12 +346,15 @@ mod shapes {
         check_convert_prefix_rejected(&s1, 2);
         let e2 = [STRUCT2, NONE];
         let e1 = [STRUCT1, 0];
-        check_convert(&e2, &e1, 1, d);
+        check_convert(&e2, &e1, 1);
         // a struct field holding a new-epoch vec
         let f2 = [STRUCT2, SOME, i1, VEC2, SOME, U8, x, NONE, NONE];
         let f1 = [STRUCT1, 1, i1, VEC1, 1, U8, x];
-        check_convert(&f2, &f1, 3, d);
+        check_convert(&f2, &f1, 3);
     }
+
+    #[cfg(verif_replay)]
+    include!("/verif/.cache/replay/convert_value__verif__shapes.rs");
 }
 
 // ---------------------------------------------------------------------------------------------
@@ -382,8 +377,7 @@ mod keys {
                 let kb: [u8; $klen] = $kb;
                 let kc: [u8; $clen] = $kc;
                 let v: u8 = kani::any();
-                let d = any_depth();
-                const K: usize = $klen;
+                        const K: usize = $klen;
                 const C: usize = $clen;
                 let map1 = <<$ktag as KeyTag>::Impl as KeyTagImpl>::VALUE_KIND_MAP1 as u8;
                 let map2 = <<$ktag as KeyTag>::Impl as KeyTagImpl>::VALUE_KIND_MAP2 as u8;
@@ -412,7 +406,7 @@ mod keys {
                 }
                 m1[C + 2] = U8;
                 m1[C + 3] = v;
-                check_convert(&m2, &m1, 2, d);
+                check_convert(&m2, &m1, 2);
                 let mut l = 0;
                 while l < K + 5 {
                     check_convert_prefix_rejected(&m2, l);
@@ -429,7 +423,7 @@ mod keys {
                 }
                 m1in[K + 2] = U8;
                 m1in[K + 3] = v;
-                check_convert(&m1in, &m1, 2, d);
+                check_convert(&m1in, &m1, 2);
                 check_convert_prefix_rejected(&m1in, K + 3);
                 check_convert_prefix_rejected(&m1in, 2);
 
@@ -451,7 +445,7 @@ mod keys {
                     s1[2 + i] = kc[i];
                     i += 1;
                 }
-                check_convert(&s2, &s1, 1, d);
+                check_convert(&s2, &s1, 1);
                 let mut l = 0;
                 while l < K + 3 {
                     check_convert_prefix_rejected(&s2, l);
@@ -465,7 +459,7 @@ mod keys {
                     s1in[2 + i] = kb[i];
                     i += 1;
                 }
-                check_convert(&s1in, &s1, 1, d);
+                check_convert(&s1in, &s1, 1);
                 check_convert_prefix_rejected(&s1in, K + 1);
             }
         };
@@ -483,8 +477,11 @@ mod keys {
     keyed_convert!(q_c13_keys_i64_long, 20, tags::I64, 9, 9, |s| s[7] != 0, [255, s[0], s[1], s[2], s[3], s[4], s[5], s[6], s[7]], [255, s[0], s[1], s[2], s[3], s[4], s[5], s[6], s[7]]);
     keyed_convert!(q_c13_keys_uuid, 30, tags::Uuid, 16, 16, |s| true, s, s);
     keyed_convert!(q_c13_keys_string, 14, tags::String, 3, 3, |s| true, [2, s[0], s[1]], [2, s[0], s[1]]);
-    keyed_convert!(#[cfg(any(verif_unit = "all", verif_unit = "convert_keys_t"))] t_c13_keys_u32_short, 12, tags::U32, 1, 1, |s| s[0] <= 251, [s[0]], [s[0]]);
-    keyed_convert!(#[cfg(any(verif_unit = "all", verif_unit = "convert_keys_t"))] t_c13_keys_u64_short, 12, tags::U64, 1, 1, |s| s[0] <= 247, [s[0]], [s[0]]);
+    keyed_convert!(#[cfg(any(verif_unit = "all", verif_unit = "convert_keys_t"))] t_c13_keys_u32_short, 12, tags::U32, 1, 1, |s| true, [251], [251]);
+    keyed_convert!(#[cfg(any(verif_unit = "all", verif_unit = "convert_keys_t"))] t_c13_keys_u64_short, 12, tags::U64, 1, 1, |s| true, [247], [247]);
     keyed_convert!(#[cfg(any(verif_unit = "all", verif_unit = "convert_keys_t"))] t_c13_keys_u32_mid, 14, tags::U32, 3, 3, |s| s[1] != 0, [253, s[0], s[1]], [253, s[0], s[1]]);
     keyed_convert!(#[cfg(any(verif_unit = "all", verif_unit = "convert_keys_t"))] t_c13_keys_u64_noncanonical, 16, tags::U64, 5, 1, |s| s[0] <= 247, [251, s[0], 0, 0, 0], [s[0]]);
+
+    #[cfg(verif_replay)]
+    include!("/verif/.cache/replay/convert_value__verif__keys.rs");
 }
